@@ -51,6 +51,10 @@ def scenario(big: bool = False) -> Any:
         d["mws"] = mws
         d["fail_saves"] = sorted(d["fail_saves"])
         d.update({"N": None, "W": None, "stop": None, "ends": True})
+        if d.pop("via_api"):
+            # the worker is run with taskiq.api.run_receiver_task; after the history, while it is idle, the broker subscription
+            # breaks once (listen() raises) and the runner subscribes again - the probe must still find all A slots
+            d.update({"via_api": True, "stream_fault": nh, "ends": False})
         d["horizon"] = cm.r9(hist_end + 40.0 + A * gap + 31.0 + 2.0 * (A + d["P"] + 3))
         d["drain"] = 0.0
         return d
@@ -69,6 +73,7 @@ def scenario(big: bool = False) -> Any:
         "save_latency": st.sampled_from([0.0, 0.0, 0.1]),
         "mws": st.lists(mw, max_size=2),
         "probe_gap": st.sampled_from([0.0, 0.0, 0.05]),
+        "via_api": st.sampled_from([False, False, False, True]),
     }).map(fin)
 
 
@@ -86,7 +91,10 @@ def run_case(sc: Dict[str, Any]) -> Outcome:
     tr = res["trace"]
     out.trace = wh.brief_trace(tr, 80)
     out.clauses_checked = ["C03.a", "C03.c", "C03.d"] + (["C03.b"] if A == 1 else [])
-    if res["listen_exc"] or res["deadlock"] or not res["returned"]:
+    if sc.get("via_api"):
+        if res["listen_exc"] or res["deadlock"] or res["returned"]:
+            out.add("C03.d", f"run_receiver_task stopped: exc={res['listen_exc']} deadlock={res['deadlock']} returned={res['returned']}")
+    elif res["listen_exc"] or res["deadlock"] or not res["returned"]:
         out.add("C03.d", f"listen() did not finish normally: exc={res['listen_exc']} deadlock={res['deadlock']} returned={res['returned']}")
     first: Dict[Any, int] = {}
     last: Dict[Any, int] = {}
@@ -142,7 +150,7 @@ def run_case(sc: Dict[str, Any]) -> Outcome:
     arrivals = {round(sp["at"], 6) for sp in specs[:nh]}
     coincide = bool(ends & arrivals) and nh > 1
     out.nontrivial = bool(nonsucc + (1 if hookfail else 0) + (1 if savefail else 0) >= A or coincide)
-    out.classes = [f"A={A}"] + [c for c, f in (("hook_failure", hookfail), ("save_failure", savefail),
+    out.classes = [f"A={A}"] + (["run_receiver_task_resubscribes"] if sc.get("via_api") else []) + [c for c, f in (("hook_failure", hookfail), ("save_failure", savefail),
                                               ("coincident_completion_arrival", coincide), ("nonsuccess>=A", nonsucc >= A)) if f]
     return out
 
